@@ -32,6 +32,20 @@ CHECKS.update({
         text="Every history is executed twice (with and without litestream); the TLA+ judge requires the application-visible content (schema + rows minus _litestream_*) unchanged by every litestream step and equal to the control run after every application step, _litestream_lock empty, integrity_check ok, WAL mode."),
 })
 
+REPL_TECH = ("TLA+ specs Replica.tla / Faults.tla (replica file sets under upload, compaction with cache, snapshot, retention passes, storage faults; planner = RestorePlan.tla): "
+             "TLC exhaustive; TLC behaviours + seeded schedules replayed on the real litestream + file replica; every replica file decoded; TLC judge CoreObs.tla")
+CHECKS.update({
+    "C05": dict(technique=REPL_TECH, design="7/C05", note=CORE_NOTE + " Faults are injected by a wrapper around the DB's replica client (ok / fail-before / partial / fail-after / listing and read errors); the restore oracle uses an un-faulted client.",
+        text="Faults.tla checks L0Gapless, AckStored, Restorable for every placement of up to 3 faults; its behaviours and seeded fault schedules run on the real code; after every step the TLA+ judge requires the level-0 names gapless, every acknowledgement stored and restoring to the source, the replica restorable to a committed state, and catch-up once faults stop."),
+    "C06": dict(technique=REPL_TECH, design="7/C06", note=CORE_NOTE,
+        text="Replica.tla checks level contiguity on retention-free histories; on the real code every compaction/snapshot output is decoded and the TLA+ judge recomposes its level-0 inputs (latest page wins, trimmed to the final size, newest input's timestamp) and requires equality, contiguity per level, and that every listed TXID restores to the recorded committed state (plan independence)."),
+    "C07": dict(technique=REPL_TECH, design="7/C07", note=CORE_NOTE + " EnforceRetentionByTXID is exercised with floors covered by a snapshot (the only floors the daemon passes).",
+        text="Replica.tla checks Restorable, SnapshotKept, L0Run for every retention threshold (RetentionEnabled true/false); on the real code cut-offs are placed around the observed file times and after every pass the TLA+ judge requires the latest state restorable to a committed state not older than the last acknowledgement, a snapshot kept, level 0 one contiguous run."),
+    "C19": dict(technique="TLA+ spec RestoreV3.tla/RestoreV3Plan.tla (transcription of the 0.3.x restore planning + declarative statement): TLC enumerates all small layouts; same layouts materialised as real lz4 snapshot/WAL-segment files from real SQLite histories and restored by the real code; TLC judge RestoreV3Obs.tla",
+        design="7/C19", note="Layouts <= 2 generations, <= 2 snapshots, <= 3 indices, <= 3 segments per index, one segment removed, all timestamps; file replica client. " + TB,
+        text="The transcription of findBestSnapshotV3 / filterWALSegmentsV3 / the contiguity walk / format arbitration is checked against the declarative statement on every small layout; each layout is built physically from a real history and restored with the real Replica.Restore; the TLA+ judge requires the real outcome to satisfy the declarative statement (verdict) and to equal the transcription (binding)."),
+})
+
 PENDING = {}
 for i in range(1, 21):
     pid = "C%02d" % i
